@@ -185,14 +185,17 @@ def stripLeadingZeros : Bytes → Bytes
   | x :: xs => if x == 0 then stripLeadingZeros xs else x :: xs
 
 /-- `_compose_mpint(value, length, byte_order)` for the big-endian orders: `length` 32-bit words of
-the (two's-complement adjusted) value, most significant first, leading zero bytes stripped. -/
+the (two's-complement adjusted) value, most significant first, leading zero bytes stripped.  The
+width of the two's complement of a negative value is taken from `(~value).bit_length()`, with
+`~value = -value - 1 ≥ 0` (repaired: it was `value.bit_length()`, one byte too many at `-2^(8k-1)`). -/
 def composeMpintCore (v : Int) (words : Nat) : Bytes :=
-  let pos : Nat := if v < 0 then (((2 : Int) ^ (bitLength v / 8 * 8 + 8)) + v).toNat else v.toNat
+  let pos : Nat := if v < 0 then (((2 : Int) ^ (bitLength (-v - 1) / 8 * 8 + 8)) + v).toNat else v.toNat
   stripLeadingZeros (beBytes (4 * words) pos)
 
-/-- `compose_ssh_mpint(value)` (network byte order) -/
+/-- `compose_ssh_mpint(value)` (network byte order); the bit length of a negative value is that of
+`~value = -value - 1`, rounded up to whole bytes (repaired, as in `composeMpintCore`). -/
 def composeSshMpint (v : Int) : Except PErr Bytes :=
-  let bl := if v < 0 then bitLength v / 8 * 8 + 8 else bitLength v
+  let bl := if v < 0 then bitLength (-v - 1) / 8 * 8 + 8 else bitLength v
   let words := bl / 32 + (if bl % 32 == 0 then 0 else 1)
   let m := composeMpintCore v words
   let negative := decide (v < 0)
